@@ -49,12 +49,16 @@ GEOMS: Dict[str, Any] = {
 }
 # two methane molecules 4.6 A apart (one input "molecule"): long-range pair terms (dispersion corrections) act between them
 _m = GEOMS["ch4"][1]
+GEOMS["ch4_h2o"] = ([8, 6, 1, 1, 1, 1, 1, 1], [[0.0, 0.0, 0.0], [4.1, 0.3, -0.2], [0.96, 0.0, 0.0], [-0.24, 0.93, 0.0], [4.73, 0.93, 0.43], [3.47, -0.33, 0.43], [3.47, 0.93, -0.83], [4.73, -0.33, -0.83]])   # CH4...H2O, 4 A apart
+GEOMS["h2o_pair"] = ([8, 8, 1, 1, 1, 1], [[0.0, 0.0, 0.0], [3.9, 0.4, 0.3], [0.96, 0.0, 0.0], [-0.24, 0.93, 0.0], [4.86, 0.4, 0.3], [3.66, 1.33, 0.3]])   # water dimer, 4 A apart
 GEOMS["h2_pair"] = ([1, 1, 1, 1], [[0.0, 0.0, 0.0], [0.0, 0.0, 0.70], [2.30, 0.0, 0.0], [2.30, 0.0, 0.70]])     # two parallel H2, contact just outside the dispersion switch (2.214 A)
 GEOMS["ch4_dimer"] = ([6, 6] + [1] * 8, [_m[0], [_m[0][0] + 4.6, _m[0][1] + 0.3, _m[0][2] - 0.2]] + _m[1:] + [[a + 4.6, b + 0.3, c - 0.2] for a, b, c in _m[1:]])
 # two waters 30 A apart (one input "molecule"): pairs beyond every short-range cut-off of the package (overlaps are cut at 40 bohr)
 _w = GEOMS["h2o"][1]
 GEOMS["h2o_far"] = ([8, 8, 1, 1, 1, 1], [_w[0], [_w[0][0] + 17.0, _w[0][1] + 20.0, _w[0][2] + 14.0]] + _w[1:] + [[a + 17.0, b + 20.0, c + 14.0] for a, b, c in _w[1:]])
-CHARGE = {"oh-": -1, "nh4+": 1}
+GEOMS["h2o2+"] = GEOMS["h2o"]        # same species row as water, two electrons fewer (closed shell)
+GEOMS["ch2o2+"] = GEOMS["ch2o"]
+CHARGE = {"oh-": -1, "nh4+": 1, "h2o2+": 2, "ch2o2+": 2}
 MULT = {"no": 2, "oh": 2, "o2": 3}
 
 
